@@ -1,7 +1,7 @@
 """Groups REC / FR (§5.3): what the recovery reader may deliver."""
 import re
 
-from core import op_local, op_const_bits, op_const_named, place_fields, mem_loc, strip_crate, alias_paths, place_path
+from core import op_local, op_const_bits, op_const_named, place_fields, mem_loc, strip_crate, alias_paths, place_path, ok_bool_edges, result_edges
 from engine import rule
 from flow import flow_of
 from vocab import where, const_comparisons, switch_on_result
@@ -183,6 +183,14 @@ def rec5(ctx):
             for c2 in b.calls:
                 if c2.node is not None and c2.dest_local() is not None and b.local_ty(c2.dest_local()).startswith('std::result::Result<bool,'):
                     k1 = alias_paths(b, c2.dest_local())
+                    # `match call() { Ok(flag) => .. }`: the flag is read straight from the Ok payload
+                    for bj, blk in enumerate(b.blocks):
+                        if b.live[bj] and blk['term']['k'] == 'switch':
+                            c = b.switch_cond(bj)
+                            if c and c['kind'] == 'bool' and any(o[0] == 'place' and place_path(k1, o[2]) == [(('v', 'Ok'), ('f', '0'))] for o in c['origin']):
+                                ed = b.bool_edges(bj)
+                                if ed:
+                                    avail.append(ed[0])
                     for c3 in b.calls:
                         if c3.name.endswith('::branch') and c3.arg_local(0) in k1:
                             k2 = alias_paths(b, c3.dest_local())
@@ -244,41 +252,58 @@ def fr2(ctx):
         return
     fp, ck = fp[0], ck[0]
 
-    def crc_call(b):
-        for cs in b.calls:
-            if cs.node is not None and cs.dest_local() is not None and b.local_ty(cs.dest_local()) == 'u32':
-                cb = ctx.f.bodies[cs.node]
-                if any('crc32fast::Hasher' in c.name for c in cb.calls):
-                    return cs
-        return None
-    c1, c2 = crc_call(fp), crc_call(ck)
-    same = c1 is not None and c2 is not None and c1.node == c2.node
-    ctx.check(same, 'same-fn', fp.span, 'for_payload and check call the same checksum fn', 'writer and reader no longer use the same checksum function', nontrivial=False)
-    if not same:
-        return
-    # arguments: (payload, frame_type byte) on both sides
-    for (b, cs, side) in ((fp, c1, 'writer'), (ck, c2, 'reader')):
+    def uses_hasher(cb, depth=0):
+        if any('crc32fast::Hasher' in c.name for c in cb.calls):
+            return True
+        return depth < 2 and any(c.node is not None and c.node in ctx.f.bodies and uses_hasher(ctx.f.bodies[c.node], depth + 1) for c in cb.calls)
+    # the checksum is analysed as ONE computation inside the writer and inside the reader, whether or not
+    # the crate factors it into a helper (A-INLINE on demand)
+    sides = {}
+    for (b0, side) in ((fp, 'writer'), (ck, 'reader')):
+        b = ctx.f.inlined(b0, uses_hasher, 'crc')
         fl = flow_of(b)
-        ok_payload = False
-        ok_type = False
-        for a in cs.args:
-            back = fl.backward(set(fl.op_nodes(a)))
-            al = op_local(a)
-            ty = b.local_ty(al) if al is not None else ''
-            if ty == '&[u8]':
-                ok_payload = any(('l', i) in back for i in range(1, b.arg_count + 1))
-            if ty == 'u8':
-                if side == 'writer':
-                    ok_type = ('l', 1) in back
-                else:
-                    ok_type = ('m', 'Header.frame_type') in back or ('l', 1) in back
-        ctx.check(ok_payload and ok_type, 'args:%s' % side, where(b, cs.point), '%s passes (payload, frame-type byte) to the checksum' % side,
-                  '%s does not pass both the payload and the frame-type byte to the checksum' % side)
+        ups = [c for c in b.calls if c.name.endswith('crc32fast::Hasher::update')]
+        fin = [c for c in b.calls if c.name.endswith('crc32fast::Hasher::finalize')]
+        payload_param = [i for i in range(1, b0.arg_count + 1) if b0.local_ty(i) == '&[u8]']
+        t_up, d_up = [], []
+        for u in ups:
+            back = fl.backward(set(fl.op_nodes(u.args[1]))) if len(u.args) > 1 else set()
+            from_payload = any(('l', i) in back for i in payload_param)
+            if side == 'writer':
+                from_type = any(('l', i) in back for i in range(1, b0.arg_count + 1) if i not in payload_param)
+            else:
+                from_type = ('m', 'Header.frame_type') in back
+            if from_payload and not from_type:
+                d_up.append(u)
+            elif from_type and not from_payload:
+                t_up.append(u)
+        okf = len(fin) == 1
+        cover = bool(t_up) and bool(d_up) and okf and all(b.dominates(u.point, fin[0].point) for u in (t_up[:1] + d_up[:1])) and len(ups) == len(t_up) + len(d_up)
+        ctx.check(cover, 'args:%s' % side, where(b, (fin or ups or b.calls)[0].point) if (fin or ups or b.calls) else b0.span, '%s: the checksum covers the frame-type byte and the payload on every path' % side,
+                  '%s: the checksum no longer covers both the frame-type byte and the payload on every path (type updates: %d, payload updates: %d, other updates: %d, finalize: %d)' % (side, len(t_up), len(d_up), len(ups) - len(t_up) - len(d_up), len(fin)))
+        order = None
+        if t_up and d_up:
+            order = 'type-first' if b.dominates(t_up[0].point, d_up[0].point) else ('payload-first' if b.dominates(d_up[0].point, t_up[0].point) else 'unordered')
+        # width of what is hashed for the type: the array handed to update()
+        tw = None
+        if t_up:
+            al = t_up[0].arg_local(1)
+            for o in (b.trace_local(al) if al is not None else []):
+                if o[0] == 'rv' and o[2]['k'] == 'ref':
+                    tw = b.local_ty(o[2]['place']['l'])
+            if tw is None and al is not None:
+                tw = b.local_ty(al)
+        sides[side] = (b, fl, fin, order, tw, cover)
+    if not all(sides[x][5] for x in sides):
+        return
+    same = sides['writer'][3] == sides['reader'][3] and sides['writer'][3] in ('type-first', 'payload-first') and sides['writer'][4] == sides['reader'][4]
+    ctx.check(same, 'same-fn', fp.span, 'writer and reader hash the same things in the same order (%s, type as %s)' % (sides['writer'][3], sides['writer'][4]),
+              'writer and reader no longer compute the same checksum: order %s vs %s, type hashed as %s vs %s' % (sides['writer'][3], sides['reader'][3], sides['writer'][4], sides['reader'][4]), nontrivial=False)
     # reader compares with the stored checksum by Eq
-    fl = flow_of(ck)
+    (bk, fl, fin, _o, _t, _c) = sides['reader']
     eq_ok = False
-    t = fl.forward(set(fl.call_result_nodes(c2)))
-    for (p, kind, data) in ck.defs.get(0, []):
+    t = fl.forward(set(fl.call_result_nodes(fin[0])))
+    for (p, kind, data) in bk.defs.get(0, []):
         if kind == 'assign' and data['rv']['k'] == 'binop' and data['rv']['op'] == 'Eq':
             a1, b1 = data['rv']['a'], data['rv']['b']
             other = b1 if fl.op_tainted(a1, t) else (a1 if fl.op_tainted(b1, t) else None)
@@ -286,38 +311,15 @@ def fr2(ctx):
                 eq_ok = True
     ctx.check(eq_ok, 'check-eq', ck.span, 'check() is `crc(payload, type) == self.checksum`', 'Header::check is no longer an equality between the recomputed and the stored checksum')
     # writer stores the crc into the checksum field
-    flw = flow_of(fp)
-    tw = flw.forward(set(flw.call_result_nodes(c1)))
+    (bw, flw, finw, _o, _t, _c) = sides['writer']
+    tw_ = flw.forward(set(flw.call_result_nodes(finw[0])))
     st_ok = False
-    for (p, kind, data) in fp.defs.get(0, []):
+    for (p, kind, data) in bw.defs.get(0, []):
         if kind == 'assign' and data['rv']['k'] == 'agg' and data['rv'].get('agg') == 'adt':
             for nm, o in zip(data['rv']['fields'], data['rv']['ops']):
-                if nm == 'checksum' and flw.op_tainted(o, tw):
+                if nm == 'checksum' and flw.op_tainted(o, tw_):
                     st_ok = True
     ctx.check(st_ok, 'writer-stores', fp.span, 'for_payload stores the checksum into Header.checksum', 'Header::for_payload does not store the computed checksum')
-    # the checksum fn hashes a 1-byte array from the type byte, then the data, then finalizes
-    cb = ctx.f.bodies[c1.node]
-    flc = flow_of(cb)
-    ups = [c for c in cb.calls if c.name.endswith('crc32fast::Hasher::update')]
-    fin = [c for c in cb.calls if c.name.endswith('crc32fast::Hasher::finalize')]
-    type_up = data_up = False
-    data_param = type_param = None
-    for i in range(1, cb.arg_count + 1):
-        if cb.local_ty(i) == '&[u8]':
-            data_param = i
-        if cb.local_ty(i) == 'u8':
-            type_param = i
-    for u in ups:
-        back = flc.backward(set(flc.op_nodes(u.args[1]))) if len(u.args) > 1 else set()
-        if type_param is not None and ('l', type_param) in back:
-            type_up = True
-        if data_param is not None and ('l', data_param) in back:
-            data_up = True
-    exits = [e['point'] for e in cb.exits()] or cb.return_points()
-    must_all = all(not any(e in cb.reach([cb.entry], avoid=[u.point]) for e in exits) for u in ups) if ups else False
-    fin_ok = bool(fin) and (fin[0].dest_local() == 0 or ('l', 0) in flc.forward(set(flc.call_result_nodes(fin[0]))))
-    ctx.check(type_up and data_up and must_all and fin_ok and len(ups) >= 2, 'crc-body', cb.span, 'checksum = Hasher.update([type]) ; update(data) ; finalize()',
-              'the checksum no longer covers both the frame-type byte and the payload on every path (type:%s data:%s all-paths:%s finalize:%s)' % (type_up, data_up, must_all, fin_ok))
 
 
 @rule('FR3', ['C08'], floor=2, template='guard-dominates-exit')
@@ -510,21 +512,7 @@ def fr7(ctx):
             ctx.check(g2, '%s:short-tail-left' % b.path, where(b, e['point']), 'the early return is unreachable when fewer than HEADER_LEN bytes remain in the block',
                       'the reader can try to read a header from a block tail shorter than HEADER_LEN')
         # after next_block true: cursor = 0 and block_corrupted = false dominate the Ok exit; false edge -> only NotAvailable
-        known = alias_paths(b, nb.dest_local())
-        tedges = []
-        for c2 in b.calls:
-            if c2.name.endswith('::branch') and c2.arg_local(0) in known:
-                k2 = alias_paths(b, c2.dest_local())
-                for bj, blk2 in enumerate(b.blocks):
-                    if not b.live[bj] or blk2['term']['k'] != 'switch':
-                        continue
-                    c = b.switch_cond(bj)
-                    if c and c['kind'] == 'bool':
-                        for o in c['origin']:
-                            if o[0] == 'place' and place_path(k2, o[2]) == [(('v', 'Continue'), ('f', '0'))]:
-                                ed = b.bool_edges(bj)
-                                if ed:
-                                    tedges.append(ed)
+        tedges = ok_bool_edges(b, nb.dest_local()) if nb.dest_local() is not None else []
         resets_c = [p for (p, pl, rv) in stores_to(b, 'FrameReader', 'cursor') if const_store_val(rv) == 0]
         resets_b = [p for (p, pl, rv) in stores_to(b, 'FrameReader', 'block_corrupted') if const_store_val(rv) == 0]
         okk = False
